@@ -134,7 +134,7 @@ def run_family(pid, tier, profile, n, length, mc_cfg, text_rule, extra_assumptio
         ["TLC and the TLA+ Json/IOUtils modules",
          "the driver projects protobuf notifications to index paths / value tokens faithfully (it contains no oracle logic)",
          "the stubbed clock cache.Now does not run backwards", "a target that is already known is never added again",
-         "atomic containers and plain leaves never share the same exact path; no NaN/-0 values; no path-level origin (note N1)"]
+         "no NaN/-0 values; no path-level origin (note N1)"]
         + (extra_assumptions or []),
         time.time() - t0, len(outcome.violations))
     vlib.cleanup(pid)
